@@ -1,2 +1,3 @@
 pub mod crash;
 pub mod seq;
+pub mod wire;
